@@ -5,7 +5,8 @@
 package core
 
 // C01: a transition requested through the API that fails leaves the environment in ERROR: GO_ERROR is attempted and,
-// if that is refused too, the state is forced.
+// if that is refused too, the state is forced - unless the environment is DONE by then (DONE is terminal: a request that
+// waited for a teardown to finish finds DONE and must leave it alone).
 //@ func (m *RpcServer) ControlEnvironment(cxt context.Context, req *pb.ControlEnvironmentRequest) (reply *pb.ControlEnvironmentReply, err error)
 //@   property C01 C02
 //@   ghostvar tries int = 0
@@ -14,9 +15,12 @@ package core
 //@   ghostvar forced bool = false
 //@   on call (*environment.Environment).TryTransition : tries = tries + 1
 //@   on aftercall (*environment.Environment).TryTransition : lastErr = (result != nil) ; firstErr = if tries == 1 then (result != nil) else firstErr
-//@   on call (*fsm.FSM).SetState : assert tries == 2 && lastErr && arg1 == "ERROR" ; forced = true
+//@   ghostvar stAsked bool = false
+//@   ghostvar isDone bool = false
+//@   on aftercall (*environment.Environment).CurrentState when tries == 2 : stAsked = true ; isDone = isDone || (result == "DONE")
+//@   on call (*fsm.FSM).SetState : assert tries == 2 && lastErr && arg1 == "ERROR" && stAsked && !isDone ; forced = true
 //@   ensures tries <= 2
-//@   ensures tries >= 1 && firstErr ==> tries == 2 && (!lastErr || forced)
+//@   ensures tries >= 1 && firstErr ==> tries == 2 && (!lastErr || forced || (stAsked && isDone))
 //@   ensures tries >= 1 && !firstErr ==> tries == 1
 // C02: a transition that failed is answered with an error, whatever becomes of the GO_ERROR that follows it
 //@   [C02] ensures firstErr ==> err != nil
